@@ -16,6 +16,7 @@ Python `str` values.  Import-free, total, executable.
 | `_requires_quotes` (`value[0]` raises IndexError on `""`)           | `requiresQuotes` (`none` = IndexError) |
 | `quote` with the `_strings` memo dict and `quoted_name.quote` force | `quote`, `quoteC` (stateful) |
 | `format_table` / `format_column(use_table=True)` dotted joins       | `formatDotted`             |
+| `DefaultDialect.normalize_name / denormalize_name`, `quoted_name.lower/upper` | `normalizeName`, `denormalizeName`, `lowerQ`, `upperQ` |
 | `_r_identifiers` regex `(?:(?:IQ((?:ESC|[^FQ])+)FQ|([^\.]+))(?=\.|$))+` | `matchAt` (backtracking matcher, hand compiled) |
 | `re.findall` + `a or b` + `_unescape_identifier`                    | `findall`, `unformat`      |
 
@@ -77,6 +78,9 @@ structure Prep where
   lowerRanges : List (Nat × Nat × Nat × Int)
   /-- code points whose `lower()` is not a single character -/
   lowerSpecial : List (Nat × Str)
+  /-- the same two tables for `str.upper()` -/
+  upperRanges : List (Nat × Nat × Nat × Int) := []
+  upperSpecial : List (Nat × Str) := []
 deriving Repr
 
 def inLowerRange (c : Nat) (r : Nat × Nat × Nat × Int) : Bool :=
@@ -98,6 +102,18 @@ def lowerChar (p : Prep) (c : Nat) : Str :=
 /-- `value.lower()` (context-free part; final-sigma is not modelled: both σ and ς
     differ from Σ and are non-ASCII, which is all `_requires_quotes` observes) -/
 def lower (p : Prep) (s : Str) : Str := s.flatMap (lowerChar p)
+
+def upperChar (p : Prep) (c : Nat) : Str :=
+  if c < 128 then [asciiUpperChar c] else
+  match p.upperSpecial.lookup c with
+  | some w => w
+  | none =>
+    match p.upperRanges.find? (inLowerRange c) with
+    | some r => [Int.toNat (c + r.2.2.2)]
+    | none => [c]
+
+/-- `value.upper()` -/
+def upper (p : Prep) (s : Str) : Str := s.flatMap (upperChar p)
 
 /-- `legal_characters.match(value)` for the shape `^[class]+$`: one or more class
     characters, then end of string or exactly one final `\n`. -/
@@ -170,6 +186,40 @@ def quoteAll (p : Prep) : List Str → Option (List Str)
 
 def formatDotted (p : Prep) (names : List Str) : Option Str :=
   (quoteAll p names).map intercalateDot
+
+/-! ## `DefaultDialect.normalize_name` / `denormalize_name` (engine/default.py)
+
+Names travel with their `quoted_name.quote` flag (`none` for a plain `str`);
+`quoted_name.lower()/upper()` return the name itself when the flag is `True`. -/
+
+def lowerQ (p : Prep) (force : Option Bool) (s : Str) : Str := if force == some true then s else lower p s
+def upperQ (p : Prep) (force : Option Bool) (s : Str) : Str := if force == some true then s else upper p s
+
+/-- `normalize_name(name)` for a name as the server reports it (a plain `str`);
+    outer `none` = `IndexError` escaping from `_requires_quotes` -/
+def normalizeName (p : Prep) (s : Str) : Option (Str × Option Bool) :=
+  let lo := lower p s
+  let up := upper p s
+  if up == lo then some (s, none)
+  else if up == s then
+    match requiresQuotes p lo with
+    | none => none
+    | some false => some (lo, none)
+    | some true => if lo == s then some (s, some true) else some (s, none)
+  else if lo == s then some (s, some true)
+  else some (s, none)
+
+/-- `denormalize_name(name)` -/
+def denormalizeName (p : Prep) (force : Option Bool) (s : Str) : Option Str :=
+  let lo := lowerQ p force s
+  let up := upperQ p force s
+  if up == lo then some s
+  else if lo == s then
+    match requiresQuotes p lo with
+    | none => none
+    | some false => some up
+    | some true => some s
+  else some s
 
 /-! ## `_r_identifiers` / `unformat_identifiers` -/
 
